@@ -3,7 +3,7 @@ import json, os
 import vlib
 
 PROPS = ["C06", "C20"]
-EVERY = {"quick": 300, "thorough": 60}
+EVERY = {"quick": 300, "thorough": 400}
 NSIM = {"quick": 15, "thorough": 300}   # each walk yields one behaviour per successor of its last state (~45)
 
 
@@ -40,7 +40,8 @@ def run(prop, tier, seed, scratch, replay=None):
         res.write_evidence = False
         return res.finish()
     cfg = "MC_Spend_%s.cfg" % tier
-    bfs = vlib.run_tlc(scratch, "Spend.tla", cfg, out_traces=traces, tag="bfs",
+    every = EVERY[tier]
+    bfs = vlib.run_tlc(scratch, "Spend.tla", cfg, out_traces=traces, tag="bfs", emit_every=every, emit_offset=seed,
                        timeout=3400 if tier == "thorough" else 600)
     vlib.require_tlc_ok(bfs, "exhaustive exploration")
     cfgtext = open(os.path.join(vlib.SPEC, cfg)).read()
@@ -55,9 +56,8 @@ def run(prop, tier, seed, scratch, replay=None):
                        out_traces=simtr, tag="sim", timeout=1800)
     if sim["errors"]:
         raise vlib.Broken("simulation failed: %s" % sim["errors"][:3])
-    every = EVERY[tier]
     vlib.run_driver(drv, ["-in", traces, "-out", report, "-spec", "spend", "-prop", prop, "-seed", seed,
-                          "-every", every, "-offset", seed % every, "-workers", vlib.NCPU], timeout=7200)
+                          "-workers", vlib.NCPU], timeout=7200)
     rep = vlib.load_report(report)
     report2 = scratch.path("report2.json")
     vlib.run_driver(drv, ["-in", simtr, "-out", report2, "-spec", "spend", "-prop", prop, "-seed", seed,
@@ -73,7 +73,7 @@ def run(prop, tier, seed, scratch, replay=None):
         "rule": rep["rule"], "samples": (rep["samples"] or [])[:2] + (rep2["samples"] or [])[:1],
         "exhaustive": every == 1,
         "explanation": "TLC explored spec/Spend.tla exhaustively under %s (depth %d) checking NoDoubleSpend, SpentNotEligible, InputsWereOwn, "
-                       "LockedLeasedNotEligible and FailedBroadcastNoTrace; every %d-th transition of that state graph and %d random walks of 28 steps "
+                       "LockedLeasedNotEligible and FailedBroadcastNoTrace; one transition in %d of that state graph (sampled inside TLC) and %d random walks of 28 steps "
                        "were replayed on a real, unlocked wallet.Wallet attached to the scripted backend (receipts on 2 accounts x 2 key scopes, blocks, "
                        "outpoint locks, leases, SendOutputs with largest-first selection sized to need exactly k coins, SendOutputsWithInput over arbitrary "
                        "coin subsets, CreateSimpleTx dry runs with random selection, backend answers accepted / rejected / failing subscription, restarts)."
